@@ -1,20 +1,20 @@
 ---- MODULE MCMining_sigops ----
 \* generated from universe "sigops"
 EXTENDS Mining
-U_TxIns == << {<<0, 0>>}, {<<0, 1>>}, {<<0, 2>>}, {<<0, 3>>} >>
+U_TxIns == << {<<0, 0>>}, {<<0, 1>>}, {<<0, 3>>}, {<<0, 4>>, <<0, 5>>} >>
 U_TxNOut == << 1, 1, 1, 1 >>
-U_TxFee == << 9000, 8000, 7000, 150 >>
-U_TxVSize == << 700, 700, 700, 100 >>
-U_TxSize == << 700, 700, 700, 109 >>
+U_TxFee == << 9000, 8000, 150, 2000 >>
+U_TxVSize == << 700, 700, 100, 250 >>
+U_TxSize == << 700, 700, 109, 250 >>
 U_TxRbf == << FALSE, FALSE, FALSE, FALSE >>
 U_TxCls == << "ok", "ok", "ok", "ok" >>
 U_TxLock == << "none", "none", "none", "none" >>
-U_TxWit == << FALSE, FALSE, FALSE, TRUE >>
-U_TxWeight == << 2800, 2800, 2800, 397 >>
-U_TxSigCost == << 40000, 39996, 40000, 1 >>
+U_TxWit == << FALSE, FALSE, TRUE, FALSE >>
+U_TxWeight == << 2800, 2800, 397, 1000 >>
+U_TxSigCost == << 40000, 39996, 1, 12 >>
 U_SlotParent == << 0 >>
 U_Script == <<  >>
 U_Policies == << [maxw |-> 3000000, minw |-> 0, prio |-> 0, minfree |-> 1000], [maxw |-> 1876, minw |-> 0, prio |-> 0, minfree |-> 0], [maxw |-> 4000000, minw |-> 1426, prio |-> 200000, minfree |-> 12000] >>
-U_Variants == << [pol |-> 1, pay |-> "none", clk0 |-> "wall", clk1 |-> "wall"], [pol |-> 2, pay |-> "p2pkh", clk0 |-> "near", clk1 |-> "far"], [pol |-> 3, pay |-> "p2sh", clk0 |-> "far", clk1 |-> "near"], [pol |-> 1, pay |-> "p2pkh", clk0 |-> "near", clk1 |-> "near"], [pol |-> 2, pay |-> "p2wpkh", clk0 |-> "far", clk1 |-> "far"] >>
+U_Variants == << [pol |-> 1, pay |-> "none", clk0 |-> "wall", clk1 |-> "wall"], [pol |-> 2, pay |-> "p2pkh", clk0 |-> "near", clk1 |-> "far"], [pol |-> 3, pay |-> "p2sh", clk0 |-> "far", clk1 |-> "near"], [pol |-> 1, pay |-> "p2pkh", clk0 |-> "near", clk1 |-> "mtp"], [pol |-> 2, pay |-> "p2wpkh", clk0 |-> "mtp", clk1 |-> "mtp+1"], [pol |-> 1, pay |-> "none", clk0 |-> "mtp-1", clk1 |-> "far"] >>
 U_CbWeight == [none |-> 300, p2pkh |-> 396, p2sh |-> 388, p2wpkh |-> 384]
 ====
